@@ -1735,3 +1735,516 @@ Proof.
     apply placed_add_stmt_mono. autorewrite with plc. exact Hp.
 Qed.
 
+
+(* [S_branch] for a block [c] that is not necessarily fresh: the invariant of the start state is given *)
+Lemma S_branch0 s t c l l1 inl b :
+  S_block b -> inv s -> inv (set_cur t c) -> loops t = loops s -> excs t = excs s ->
+  agree (next s) l l1 -> lok_block inl b = true -> (inl = true -> loops s <> []) ->
+  exists l2, B_out s t c l l1 b (process_block' (set_cur t c) b) l2.
+Proof.
+  intros Sb I It Lt Xt A1 Hlok Hinl.
+  destruct (Sb (set_cur t c) l1 inl It Hlok) as (l2 & A2 & F & C & So & Co & Da & Db & Dc); [autorewrite with bst; rewrite Lt; exact Hinl|].
+  autorewrite with bst in *. exists l2. unfold B_out. cbv zeta.
+  pose proof (m_next _ _ _ (lf_mid _ _ F)) as N'. autorewrite with bst in N'.
+  split; [exact A2|]. split; [exact F|]. split; [exact C|]. split; [exact N'|]. split; [exact (inv_lframe _ _ It F)|]. split; [|split; [|split; [|split]]].
+  - intros Hctx Hb Cl. apply So; [| |exact Cl].
+    + intro HL. apply (ctx_ok_agree l l1 s); [apply Hctx; exact HL|exact I|exact A1|exact Lt|exact Xt].
+    + intro Hk. apply (brk_ok_agree l l1 s); [apply Hb; exact Hk|exact I|exact A1|exact Lt].
+  - intros E HE HR. destruct (Co E HE HR) as (P4 & P2 & P3). split; [exact P4|]. split; [|split].
+    + intro Hn. destruct (lf_cur _ _ F) as [Hcu|Hcu]; autorewrite with bst in Hcu.
+      * rewrite Hcu. apply HR. apply (rn_block_le _ _ Hn).
+      * apply P4; [exact Hcu|apply F|]. rewrite C. exact Hn.
+    + intros Hk Hnp t0 Ht0. apply (P2 Hk).
+      * apply (noproc_eq s); [exact Lt|exact Xt|exact Hnp].
+      * rewrite (brk_t_eq s); [exact Ht0|exact Lt|exact Xt].
+    + intros HL Hn f Hf. apply (P3 HL Hn f). apply (Cfin_eq f s); [exact Lt|exact Xt|exact Hf].
+  - exact Da.
+  - exact Db.
+  - exact Dc.
+Qed.
+
+Lemma S_with k body : S_block body -> S_stmt (With k body).
+Proof.
+  intros Sb s l inl I Hlok Hinl. cbn [lok_stmt] in Hlok.
+  set (L := l (cur s)).
+  cbn beta iota delta [process_stmt'] fix match. peel_all ident:(p). bsimp.
+  pose proof (i_wfb _ I) as Wb. pose proof (i_cur _ I) as Hc. pose proof (wb_two _ Wb) as H2.
+  set (e := end_stmt (With k body)) in *.
+  set (s7 := connect (nb (nb (nb (add_stmt (connect (nb s) (cur s) (next s) ENormal) (next s) (mk k e KOther))))) (next s) (N.succ (next s)) ENormal) in *.
+  set (rb := flow_block L body).
+  set (l1 := upd (upd (upd (upd l (next s) L) (N.succ (next s)) L) (N.succ (N.succ (next s))) L) (N.succ (N.succ (N.succ (next s)))) L).
+  assert (M7 : mid anyb s s7).
+  { apply mid_connect; [repeat apply mid_nb; apply mid_add_stmt, mid_connect; [apply mid_nb, mid_refl_b; exact Wb|left; exact Logic.I|uflia|uflia]
+                       |left; exact Logic.I|unfold s7; uflia|unfold s7; uflia]. }
+  assert (K7 : klt s7) by (apply klt_connect; repeat apply klt_nb; apply klt_add_stmt, klt_connect, klt_nb; exact (i_klt _ I)).
+  assert (N7 : next s7 = N.succ (N.succ (N.succ (N.succ (next s))))) by reflexivity.
+  assert (A1 : agree (next s) l l1) by (intros b Hb; unfold l1; lev; reflexivity).
+  destruct (S_branch s s7 (N.succ (next s)) l l1 inl body Sb I M7 eq_refl eq_refl K7) as (l2 & B); try assumption; try flia.
+  rewrite <- Es8p in B. destruct B as (A2 & F & C & N8 & I8 & So & Co & Da & Db & Dc).
+  assert (Hlb : l1 (N.succ (next s)) = L) by (unfold l1; lev; reflexivity). rewrite Hlb in *. fold rb in C, So, Co, Da, Db.
+  rewrite N7 in *. pose proof (lf_curlt _ _ F) as Hc8.
+  exists l2. split; [intros b Hb; lev; unfold l1; lev; reflexivity|].
+  cbn [flow_stmt rn rk rmarks]. fold L rb.
+  split; [|split; [|split; [|split; [|split; [|split]]]]].
+  - apply lframe_mid; autorewrite with bst; try flia.
+    + apply mid_connect; [apply mid_connect; [apply mid_connect|..]|..]; try (left; exact Logic.I); try uflia.
+      apply (mid_transA _ anyb s (set_cur s7 (N.succ (next s)))); [apply mid_set_cur; exact M7|apply F|intros; left; exact Logic.I].
+    + rewrite (lf_loops _ _ F). reflexivity.
+    + rewrite (lf_excs _ _ F). reflexivity.
+    + repeat apply klt_connect. exact (lf_klt _ _ F).
+  - autorewrite with bst. lev. unfold l1. lev. reflexivity.
+  - intros Hctx Hb Cl. autorewrite with bst. rewrite !closed_snoc. split; [split; [split|]|].
+    + apply So; [exact Hctx|exact Hb|]. unfold s7. autorewrite with bst. rewrite !closed_snoc. split; [split|].
+      * apply (closed_ext l); assumption.
+      * unfold l1. lev. exact (fun H => H).
+      * unfold l1. lev. exact (fun H => H).
+    + rewrite C. lev. unfold l1. lev. apply rn_block_le.
+    + lev. unfold l1. lev. exact (fun H => H).
+    + lev. unfold l1. lev. exact (fun H => H).
+  - intros E HE HR. autorewrite with bst in HE.
+    assert (HE8 : incl (edges s8p) E) by (intros x Hx; apply HE; do 3 (apply in_or_app; left); exact Hx).
+    assert (HE7 : incl (edges s7) E) by (eapply incl_tran; [apply (lframe_incl _ _ F)|exact HE8]).
+    unfold s7 in HE7. autorewrite with bst in HE7.
+    assert (HRs : L = true -> reach E (next s)).
+    { intro HL. eapply reach_step; [apply HR; exact HL|]. apply HE7. apply in_or_app. left. apply in_or_app. right. left. reflexivity. }
+    assert (HRb : L = true -> reach E (N.succ (next s))).
+    { intro HL. eapply reach_step; [apply HRs; exact HL|]. apply HE7. apply in_or_app. right. left. reflexivity. }
+    assert (HRt : L = true -> reach E (N.succ (N.succ (next s)))).
+    { intro HL. eapply reach_step; [apply HRs; exact HL|]. apply HE. apply in_or_app. left. apply in_or_app. right. left. reflexivity. }
+    assert (HRx : L = true -> reach E (N.succ (N.succ (N.succ (next s))))).
+    { intro HL. eapply reach_step; [apply HRt; exact HL|]. apply HE. apply in_or_app. right. left. reflexivity. }
+    destruct (Co E HE8 HRb) as (P4 & P1 & P2 & P3). autorewrite with bst. split; [|split].
+    + intros b Hb1 Hb2 Hb3. destruct (N.lt_ge_cases b (N.succ (N.succ (N.succ (N.succ (next s)))))) as [Hlt|Hge].
+      * assert (HL : L = true) by (lev_in Hb3; unfold l1 in Hb3;
+          assert (b = next s \/ b = N.succ (next s) \/ b = N.succ (N.succ (next s)) \/ b = N.succ (N.succ (N.succ (next s)))) as [->|[->|[->| ->]]] by flia;
+          lev_in Hb3; exact Hb3).
+        assert (b = next s \/ b = N.succ (next s) \/ b = N.succ (N.succ (next s)) \/ b = N.succ (N.succ (N.succ (next s)))) as [->|[->|[->| ->]]] by flia; auto.
+      * apply P4; [exact Hge|exact Hb2|exact Hb3].
+    + exact P2.
+    + intros HL Hn. rewrite HL in Hn. discriminate.
+  - intros k' e' b Hp. autorewrite with plc in Hp. destruct (Da k' e' b Hp) as [Hp0|[Hk|(Hm & Hs)]].
+    + unfold s7 in Hp0. autorewrite with plc in Hp0. apply placed_add_stmt_inv in Hp0. destruct Hp0 as [Hp0|(-> & -> & ->)].
+      * left. autorewrite with plc in Hp0. exact Hp0.
+      * right. right. cbn [mk b_start b_end]. split; [left|left; reflexivity]. lev. unfold l1. lev. reflexivity.
+    + right. left. exact Hk.
+    + right. right. split; [right; exact Hm|right; exact Hs].
+  - intros k' m [Heq|Hin].
+    + inversion Heq; subst. right. exists e, (next s). split.
+      * autorewrite with plc. apply Dc. unfold s7. autorewrite with plc.
+        apply (placed_add_stmt_new (connect (nb s) (cur s) (next s) ENormal) (next s) (mk k' e KOther)). left. reflexivity.
+      * lev. unfold l1. lev. reflexivity.
+    + destruct (Db k' m Hin) as [He|(e' & b & Hp & Hm)]; [left; exact He|].
+      right. exists e', b. split; [autorewrite with plc; exact Hp|exact Hm].
+  - intros k' e' b Hp. autorewrite with plc. apply Dc. unfold s7. autorewrite with plc.
+    apply placed_add_stmt_mono. autorewrite with plc. exact Hp.
+Qed.
+
+Lemma S_class k nm body : S_block body -> S_stmt (Class k nm body).
+Proof.
+  intros Sb s l inl I Hlok Hinl. cbn [lok_stmt] in Hlok.
+  set (L := l (cur s)).
+  cbn beta iota delta [process_stmt'] fix match. peel_all ident:(p). bsimp.
+  pose proof (i_wfb _ I) as Wb. pose proof (i_cur _ I) as Hc. pose proof (wb_two _ Wb) as H2.
+  set (e := end_stmt (Class k nm body)) in *.
+  set (t := add_stmt (connect (nb s) (cur s) (next s) ENormal) (next s) (mk k e KOther)).
+  change (add_stmt (set_cur (connect (nb s) (cur s) (next s) ENormal) (next s)) (next s) (mk k e KOther)) with (set_cur t (next s)).
+  set (rb := flow_block L body).
+  set (l1 := upd l (next s) L).
+  assert (Mt : mid anyb s t).
+  { apply mid_add_stmt, mid_connect; [apply mid_nb, mid_refl_b; exact Wb|left; exact Logic.I|uflia|uflia]. }
+  assert (Kt : klt t) by (apply klt_add_stmt, klt_connect, klt_nb; exact (i_klt _ I)).
+  assert (Nt : next t = N.succ (next s)) by reflexivity.
+  assert (A1 : agree (next s) l l1) by (apply agree_upd; flia).
+  destruct (S_branch s t (next s) l l1 false body Sb I Mt eq_refl eq_refl Kt) as (l2 & B); try assumption; try flia; try discriminate.
+  set (s' := process_block' (set_cur t (next s)) body) in *.
+  destruct B as (A2 & F & C & N' & I' & So & Co & Da & Db & Dc).
+  assert (Hlb : l1 (next s) = L) by (unfold l1; lev; reflexivity). rewrite Hlb in *. fold rb in C, So, Co, Da, Db.
+  rewrite Nt in *.
+  exists l2. split; [intros b Hb; lev; unfold l1; lev; reflexivity|].
+  cbn [flow_stmt rn rk rmarks]. fold L rb.
+  split; [|split; [|split; [|split; [|split; [|split]]]]].
+  - destruct F as [Fm Fl Fx Fc Fcl Fk]. autorewrite with bst in *. split; try assumption.
+    + apply (mid_transA _ anyb s (set_cur t (next s))); [apply mid_set_cur; exact Mt|exact Fm|intros; left; exact Logic.I].
+    + right. destruct Fc as [->|Fc]; flia.
+  - exact C.
+  - intros Hctx Hb Cl. apply So; [exact Hctx|exact Hb|]. unfold t. autorewrite with bst. rewrite closed_snoc. split.
+    + apply (closed_ext l); assumption.
+    + unfold l1. lev. exact (fun H => H).
+  - intros E HE HR.
+    assert (HRc : L = true -> reach E (next s)).
+    { intro HL. eapply reach_step; [apply HR; exact HL|]. apply HE. apply (lframe_incl _ _ F). unfold t. autorewrite with bst.
+      apply in_or_app. right. left. reflexivity. }
+    destruct (Co E HE HRc) as (P4 & P1 & P2 & P3). split; [|split; [exact P2|exact P3]].
+    intros b Hb1 Hb2 Hb3. destruct (N.eq_dec b (next s)) as [->|Hne].
+    + apply HRc. lev_in Hb3. unfold l1 in Hb3. lev_in Hb3. exact Hb3.
+    + apply P4; [flia|exact Hb2|exact Hb3].
+  - intros k' e' b Hp. destruct (Da k' e' b Hp) as [Hp0|[Hk|(Hm & Hs)]].
+    + unfold t in Hp0. apply placed_add_stmt_inv in Hp0. destruct Hp0 as [Hp0|(-> & -> & ->)].
+      * left. autorewrite with plc in Hp0. exact Hp0.
+      * right. right. cbn [mk b_start b_end]. split; [left|left; reflexivity]. lev. unfold l1. lev. reflexivity.
+    + right. left. exact Hk.
+    + right. right. split; [right; exact Hm|right; exact Hs].
+  - intros k' m [Heq|Hin].
+    + inversion Heq; subst. right. exists e, (next s). split.
+      * apply Dc. autorewrite with plc. unfold t.
+        apply (placed_add_stmt_new (connect (nb s) (cur s) (next s) ENormal) (next s) (mk k' e KOther)). left. reflexivity.
+      * lev. unfold l1. lev. reflexivity.
+    + destruct (Db k' m Hin) as [He|H]; [left; exact He|right; exact H].
+  - intros k' e' b Hp. apply Dc. autorewrite with plc. unfold t. apply placed_add_stmt_mono. autorewrite with plc. exact Hp.
+Qed.
+
+Lemma inv_connect s a b t : inv s -> a < next s -> b < next s -> inv (connect s a b t).
+Proof.
+  intros I Ha Hb. pose proof (i_wfb _ I) as Wb. split.
+  - apply (wfb_mid anyb s); [apply mid_connect; [apply mid_refl_b; exact Wb|left; exact Logic.I|exact Ha|exact Hb]|exact Wb|reflexivity|reflexivity].
+  - exact (i_cur _ I).
+  - exact (i_klt _ I).
+  - exact (i_fincur _ I).
+Qed.
+
+(* ---- match cases: every case block hangs off the match block [mb] ---- *)
+Definition C_out (s : st) (mb merge : N) (l : lam) (L : bool) (a : arms) (s' : st) (l' : lam) : Prop :=
+  let ra := flow_arms L a in
+  agree (next s) l l' /\ mid anyb s s' /\ loops s' = loops s /\ excs s' = excs s /\ klt s' /\ next s <= next s' /\
+  ((L = true -> ctx_ok l s) -> (rk ra = true -> brk_ok l s) -> (rn ra = true -> l merge = true) ->
+     closed l (edges s) -> closed l' (edges s')) /\
+  (forall E, incl (edges s') E -> (L = true -> reach E mb) ->
+     (forall b0, next s <= b0 -> b0 < next s' -> l' b0 = true -> reach E b0) /\
+     (rk ra = true -> noproc s -> forall t0, brk_t s = Some t0 -> reach E t0)) /\
+  (forall k e b0, placed s' k e b0 -> placed s k e b0 \/ k = 0 \/ (In (k, l' b0) (rmarks ra) /\ In (k, e) (spans_arms a))) /\
+  (forall k m, In (k, m) (rmarks ra) -> In k (elif_arms a) \/ exists e b0, placed s' k e b0 /\ l' b0 = m) /\
+  (forall k e b0, placed s k e b0 -> placed s' k e b0).
+
+Definition S_cases (a : arms) : Prop := forall s mb merge l inl,
+  inv s -> mb < next s -> merge < next s -> lok_arms inl a = true -> (inl = true -> loops s <> []) ->
+  exists l', C_out s mb merge l (l mb) a (process_cases' s a mb merge) l'.
+
+Lemma S_cases_nil : S_cases ANil.
+Proof.
+  intros s mb merge l inl I Hmb Hm _ _. exists l. unfold C_out. cbn.
+  split; [apply agree_refl|]. split; [apply mid_refl_b, I|]. split; [reflexivity|]. split; [reflexivity|].
+  split; [exact (i_klt _ I)|]. split; [flia|]. split; [intros _ _ _ C; exact C|]. split; [|split; [|split]].
+  - intros E HE HR. split; [intros b0 H1 H2; flia|discriminate].
+  - intros k e b0 Hp. left. exact Hp.
+  - intros k m [].
+  - intros k e b0 Hp. exact Hp.
+Qed.
+
+Lemma S_cases_cons k b r : S_block b -> S_cases r -> S_cases (ACons k b r).
+Proof.
+  intros Sb Sr s mb merge l inl I Hmb Hm Hlok Hinl. cbn [lok_arms] in Hlok. apply andb_true_iff in Hlok. destruct Hlok as (Hlok1 & Hlok2).
+  set (L := l mb).
+  cbn beta iota delta [process_cases'] fix match. peel_all ident:(p). bsimp.
+  pose proof (i_wfb _ I) as Wb. pose proof (i_cur _ I) as Hc. pose proof (wb_two _ Wb) as H2.
+  set (X := mk k (N.max k (end_block b)) KOther) in *.
+  set (t := add_stmt (connect (nb s) mb (next s) ECondTrue) (next s) X).
+  change (s4p = process_block' (set_cur t (next s)) b) in Es4p.
+  set (r1 := flow_block L b). set (r2 := flow_arms L r).
+  set (l1 := upd l (next s) L).
+  assert (Mt : mid anyb s t).
+  { apply mid_add_stmt, mid_connect; [apply mid_nb, mid_refl_b; exact Wb|left; exact Logic.I|uflia|uflia]. }
+  assert (Kt : klt t) by (apply klt_add_stmt, klt_connect, klt_nb; exact (i_klt _ I)).
+  assert (Nt : next t = N.succ (next s)) by reflexivity.
+  assert (A1 : agree (next s) l l1) by (apply agree_upd; flia).
+  destruct (S_branch s t (next s) l l1 inl b Sb I Mt eq_refl eq_refl Kt) as (l2 & B); try assumption; try flia.
+  rewrite <- Es4p in B. destruct B as (A2 & F & C & N4 & I4 & So & Co & Da & Db & Dc).
+  assert (Hlb : l1 (next s) = L) by (unfold l1; lev; reflexivity). rewrite Hlb in *. fold r1 in C, So, Co, Da, Db.
+  rewrite Nt in *. pose proof (lf_curlt _ _ F) as Hc4.
+  set (s5 := connect s4p (cur s4p) merge ENormal) in *.
+  assert (I5 : inv s5) by (apply inv_connect; [exact I4|exact Hc4|flia]).
+  assert (L5 : loops s5 = loops s) by (unfold s5; autorewrite with bst; rewrite (lf_loops _ _ F); reflexivity).
+  assert (X5 : excs s5 = excs s) by (unfold s5; autorewrite with bst; rewrite (lf_excs _ _ F); reflexivity).
+  destruct (Sr s5 mb merge l2 inl I5) as (l3 & CO); try assumption; try (unfold s5; uflia); [rewrite L5; exact Hinl|].
+  assert (Hl2mb : l2 mb = L) by (lev; unfold l1; lev; reflexivity). rewrite Hl2mb in CO. fold r2 in CO.
+  set (s' := process_cases' s5 r mb merge) in *.
+  destruct CO as (A3 & M' & L' & X' & K' & N' & So' & Co' & Da' & Db' & Dc'). fold r2 in So', Co', Da', Db'.
+  assert (N5 : next s5 = next s4p) by reflexivity. rewrite N5 in *.
+  assert (Ag2 : agree (next s) l l2) by (intros b0 Hb0; lev; unfold l1; lev; reflexivity).
+  exists l3. unfold C_out. cbn [flow_arms rn rk rmarks spans_arms elif_arms]. fold L r1 r2 X.
+  split; [intros b0 Hb0; lev; unfold l1; lev; reflexivity|].
+  split; [|split; [congruence|split; [congruence|split; [exact K'|split; [flia|split; [|split; [|split; [|split]]]]]]]].
+  - apply (mid_transA _ anyb s s5); [|exact M'|intros; left; exact Logic.I].
+    apply mid_connect; [|left; exact Logic.I|exact Hc4|flia].
+    apply (mid_transA _ anyb s (set_cur t (next s))); [apply mid_set_cur; exact Mt|apply F|intros; left; exact Logic.I].
+  - intros Hctx Hb Hmg Cl. apply So'.
+    + intro HL. apply (ctx_ok_agree l l2 s); [apply Hctx; exact HL|exact I|exact Ag2|exact L5|exact X5].
+    + intro Hk. apply (brk_ok_agree l l2 s); [apply Hb; rewrite Hk; apply orb_true_r|exact I|exact Ag2|exact L5].
+    + intro Hn. lev. unfold l1. lev. apply Hmg. rewrite Hn. apply orb_true_r.
+    + unfold s5. autorewrite with bst. rewrite closed_snoc. split.
+      * apply So; [exact Hctx|intro Hk; apply Hb; rewrite Hk; reflexivity|].
+        unfold t. autorewrite with bst. rewrite closed_snoc. split; [apply (closed_ext l); assumption|].
+        unfold l1. lev. exact (fun H => H).
+      * rewrite C. lev. unfold l1. lev. intro Hn. apply Hmg. rewrite Hn. reflexivity.
+  - intros E HE HR.
+    assert (HE5 : incl (edges s5) E).
+    { destruct (m_edges _ _ _ M') as (D & ED & _). intros x Hx. apply HE. rewrite ED. apply in_or_app. left. exact Hx. }
+    assert (HE4 : incl (edges s4p) E) by (intros x Hx; apply HE5; unfold s5; autorewrite with bst; apply in_or_app; left; exact Hx).
+    assert (HRc : L = true -> reach E (next s)).
+    { intro HL. eapply reach_step; [apply HR; exact HL|]. apply HE4. apply (lframe_incl _ _ F). unfold t. autorewrite with bst.
+      apply in_or_app. right. left. reflexivity. }
+    destruct (Co E HE4 HRc) as (P4 & P1 & P2 & P3). destruct (Co' E HE HR) as (P4' & P2').
+    split.
+    + intros b0 H1 H2' H3. destruct (N.eq_dec b0 (next s)) as [->|Hne].
+      * apply HRc. lev_in H3. unfold l1 in H3. lev_in H3. exact H3.
+      * destruct (N.lt_ge_cases b0 (next s4p)) as [Hlt|Hge].
+        -- apply P4; [flia|exact Hlt|]. lev_in H3. exact H3.
+        -- apply P4'; [exact Hge|exact H2'|exact H3].
+    + intros Hk Hnp t0 Ht0. apply orb_true_iff in Hk. destruct Hk as [Hk|Hk]; [apply (P2 Hk Hnp t0 Ht0)|].
+      apply (P2' Hk); [apply (noproc_eq s); assumption|rewrite (brk_t_eq s); assumption].
+  - intros k' e' b0 Hp. destruct (Da' k' e' b0 Hp) as [Hp0|[Hk|(Hm' & Hs)]].
+    + unfold s5 in Hp0. autorewrite with plc in Hp0. destruct (Da k' e' b0 Hp0) as [Hp1|[Hk|(Hm' & Hs)]].
+      * unfold t in Hp1. apply placed_add_stmt_inv in Hp1. destruct Hp1 as [Hp1|(-> & -> & ->)].
+        -- left. autorewrite with plc in Hp1. exact Hp1.
+        -- right. right. cbn [X mk b_start b_end]. split; [left|left; reflexivity]. lev. unfold l1. lev. reflexivity.
+      * right. left. exact Hk.
+      * right. right. split; [right; apply in_or_app; left|right; apply in_or_app; left; exact Hs].
+        assert (Hb0 : b0 < next s4p) by (apply (placed_lt s4p k' e'); assumption). lev. exact Hm'.
+    + right. left. exact Hk.
+    + right. right. split; [right; apply in_or_app; right; exact Hm'|right; apply in_or_app; right; exact Hs].
+  - intros k' m [Heq|Hin].
+    + inversion Heq; subst. right. exists (N.max k' (end_block b)), (next s). split.
+      * apply Dc'. unfold s5. autorewrite with plc. apply Dc. autorewrite with plc. unfold t.
+        apply (placed_add_stmt_new (connect (nb s) mb (next s) ECondTrue) (next s) X). left. reflexivity.
+      * lev. unfold l1. lev. reflexivity.
+    + apply in_app_or in Hin. destruct Hin as [Hin|Hin].
+      * destruct (Db k' m Hin) as [He|(e' & b0 & Hp & Hm')]; [left; apply in_or_app; left; exact He|].
+        right. exists e', b0. split; [apply Dc'; unfold s5; autorewrite with plc; exact Hp|].
+        assert (Hb0 : b0 < next s4p) by (apply (placed_lt s4p k' e'); assumption). lev. exact Hm'.
+      * destruct (Db' k' m Hin) as [He|H]; [left; apply in_or_app; right; exact He|right; exact H].
+  - intros k' e' b0 Hp. apply Dc'. unfold s5. autorewrite with plc. apply Dc. autorewrite with plc. unfold t.
+    apply placed_add_stmt_mono. autorewrite with plc. exact Hp.
+Qed.
+
+Lemma S_match k cases : S_cases cases -> S_stmt (Match k cases).
+Proof.
+  intros Sc s l inl I Hlok Hinl. cbn [lok_stmt] in Hlok.
+  set (L := l (cur s)).
+  pose proof (i_wfb _ I) as Wb. pose proof (i_cur _ I) as Hc. pose proof (wb_two _ Wb) as H2.
+  set (e := end_stmt (Match k cases)).
+  set (t := nb (add_stmt (connect (nb s) (cur s) (next s) ENormal) (next s) (mk k e KOther))).
+  set (ety0 := match cases with ANil => ENormal | _ => ECondFalse end).
+  assert (Es : process_stmt' s (Match k cases) =
+               set_cur (connect (process_cases' t cases (next s) (N.succ (next s))) (next s) (N.succ (next s)) ety0) (N.succ (next s))).
+  { unfold ety0, t, e. destruct cases; reflexivity. }
+  rewrite Es. clear Es.
+  set (ra := flow_arms L cases).
+  set (l1 := upd (upd l (next s) L) (N.succ (next s)) L).
+  assert (Mt : mid anyb s t).
+  { apply mid_nb, mid_add_stmt, mid_connect; [apply mid_nb, mid_refl_b; exact Wb|left; exact Logic.I|uflia|uflia]. }
+  assert (Kt : klt t) by (apply klt_nb, klt_add_stmt, klt_connect, klt_nb; exact (i_klt _ I)).
+  assert (Nt : next t = N.succ (N.succ (next s))) by reflexivity.
+  assert (A1 : agree (next s) l l1) by (intros b Hb; unfold l1; lev; reflexivity).
+  assert (It : inv t).
+  { split; [apply (wfb_mid anyb s); [exact Mt|exact Wb|reflexivity|reflexivity]|unfold t; uflia|exact Kt|exact (i_fincur _ I)]. }
+  destruct (Sc t (next s) (N.succ (next s)) l1 inl It) as (l2 & CO); try assumption; try (rewrite Nt; flia).
+  assert (Hlm : l1 (next s) = L) by (unfold l1; lev; reflexivity). rewrite Hlm in CO. fold ra in CO.
+  set (s' := process_cases' t cases (next s) (N.succ (next s))) in *.
+  destruct CO as (A2 & M' & L' & X' & K' & N' & So' & Co' & Da' & Db' & Dc'). fold ra in So', Co', Da', Db'.
+  rewrite Nt in *.
+  exists l2. split; [intros b Hb; lev; unfold l1; lev; reflexivity|].
+  cbn [flow_stmt rn rk rmarks]. fold L ra.
+  split; [|split; [|split; [|split; [|split; [|split]]]]].
+  - apply lframe_mid; autorewrite with bst; try flia.
+    + apply mid_connect; [|left; exact Logic.I|flia|flia].
+      apply (mid_transA _ anyb s t); [exact Mt|exact M'|intros; left; exact Logic.I].
+    + exact L'.
+    + exact X'.
+    + apply klt_connect. exact K'.
+  - autorewrite with bst. lev. unfold l1. lev. reflexivity.
+  - intros Hctx Hb Cl. autorewrite with bst. rewrite closed_snoc. split.
+    + apply So'.
+      * intro HL. apply (ctx_ok_agree l l1 s); [apply Hctx; exact HL|exact I|exact A1|reflexivity|reflexivity].
+      * intro Hk. apply (brk_ok_agree l l1 s); [apply Hb; exact Hk|exact I|exact A1|reflexivity].
+      * intro Hn. unfold l1. lev. apply (rn_arms_le _ _ Hn).
+      * unfold t. autorewrite with bst. rewrite closed_snoc. split; [apply (closed_ext l); assumption|].
+        unfold l1. lev. exact (fun H => H).
+    + lev. unfold l1. lev. exact (fun H => H).
+  - intros E HE HR. autorewrite with bst in HE.
+    assert (HE' : incl (edges s') E) by (intros x Hx; apply HE; apply in_or_app; left; exact Hx).
+    assert (HRm : L = true -> reach E (next s)).
+    { intro HL. eapply reach_step; [apply HR; exact HL|]. apply HE'. destruct (m_edges _ _ _ M') as (D & ED & _). rewrite ED.
+      apply in_or_app. left. unfold t. autorewrite with bst. apply in_or_app. right. left. reflexivity. }
+    destruct (Co' E HE' HRm) as (P4 & P2). autorewrite with bst. split; [|split].
+    + intros b Hb1 Hb2 Hb3. destruct (N.lt_ge_cases b (N.succ (N.succ (next s)))) as [Hlt|Hge].
+      * assert (b = next s \/ b = N.succ (next s)) as [->| ->] by flia.
+        -- apply HRm. lev_in Hb3. unfold l1 in Hb3. lev_in Hb3. exact Hb3.
+        -- lev_in Hb3. unfold l1 in Hb3. lev_in Hb3. eapply reach_step; [apply HRm; exact Hb3|]. apply HE. apply in_or_app. right. left. reflexivity.
+      * apply P4; [exact Hge|exact Hb2|exact Hb3].
+    + intros Hk Hnp t0 Ht0. apply (P2 Hk); [apply (noproc_eq s); [reflexivity|reflexivity|exact Hnp]|rewrite (brk_t_eq s); [exact Ht0|reflexivity|reflexivity]].
+    + intros HL Hn. rewrite HL in Hn. discriminate.
+  - intros k' e' b Hp. autorewrite with plc in Hp. destruct (Da' k' e' b Hp) as [Hp0|[Hk|(Hm & Hs)]].
+    + unfold t in Hp0. autorewrite with plc in Hp0. apply placed_add_stmt_inv in Hp0. destruct Hp0 as [Hp0|(-> & -> & ->)].
+      * left. autorewrite with plc in Hp0. exact Hp0.
+      * right. right. cbn [mk b_start b_end]. split; [left|left; reflexivity]. lev. unfold l1. lev. reflexivity.
+    + right. left. exact Hk.
+    + right. right. split; [right; exact Hm|right; exact Hs].
+  - intros k' m [Heq|Hin].
+    + inversion Heq; subst. right. exists e, (next s). split.
+      * autorewrite with plc. apply Dc'. unfold t. autorewrite with plc.
+        apply (placed_add_stmt_new (connect (nb s) (cur s) (next s) ENormal) (next s) (mk k' e KOther)). left. reflexivity.
+      * lev. unfold l1. lev. reflexivity.
+    + destruct (Db' k' m Hin) as [He|(e' & b & Hp & Hm)]; [left; exact He|].
+      right. exists e', b. split; [autorewrite with plc; exact Hp|exact Hm].
+  - intros k' e' b Hp. autorewrite with plc. apply Dc'. unfold t. autorewrite with plc.
+    apply placed_add_stmt_mono. autorewrite with plc. exact Hp.
+Qed.
+
+(* ---- comprehensions: every block of the comprehension is reachable iff the statement is ---- *)
+Definition CC_out (s : st) (k prev : N) (s' : st) (last : N) : Prop :=
+  mid anyb s s' /\ klt s' /\ cur s' = cur s /\ loops s' = loops s /\ excs s' = excs s /\
+  (last = prev \/ next s <= last) /\ last < next s' /\
+  (forall u v t, In (u, v, t) (edges s') -> In (u, v, t) (edges s) \/ ((u = prev \/ next s <= u) /\ next s <= v)) /\
+  (forall E, incl (edges s') E -> reach E prev -> (forall b, next s <= b -> b < next s' -> reach E b) /\ reach E last) /\
+  (forall k' e' b, placed s' k' e' b -> placed s k' e' b \/ (k' = k /\ e' = k /\ next s <= b)) /\
+  (forall k' e' b, placed s k' e' b -> placed s' k' e' b).
+
+Lemma in_snoc {A} (x : A) l y : In x (l ++ [y]) <-> In x l \/ x = y.
+Proof. split; [intro H; apply in_app_or in H; destruct H as [H|[H|[]]]; auto|intros [H|H]; apply in_or_app; [left; exact H|right; left; auto]]. Qed.
+
+Lemma comp_clauses_sim k cl : forall s prev, wfb s -> klt s -> prev < next s ->
+  CC_out s k prev (snd (comp_clauses s k cl prev)) (fst (comp_clauses s k cl prev)).
+Proof.
+  induction cl as [|nifs cl IH]; intros s prev Wb K Hp.
+  - cbn. unfold CC_out. split; [apply mid_refl_b; exact Wb|]. split; [exact K|]. do 3 (split; [reflexivity|]).
+    split; [left; reflexivity|]. split; [exact Hp|]. split; [intros u v t Hin; left; exact Hin|].
+    split; [intros E HE HR; split; [intros b H1 H2; flia|exact HR]|]. split; [intros k' e' b H; left; exact H|intros k' e' b H; exact H].
+  - cbn [comp_clauses]. nbs. cbv zeta.
+    set (X := mk k k KOther).
+    set (s5 := connect (nb (add_stmt (connect (nb s) prev (next s) ENormal) (next s) X)) (next s) (N.succ (next s)) ECondTrue).
+    set (s6 := if Nat.ltb 0 nifs
+               then connect (add_stmt (connect (connect (nb (add_stmt (connect (nb s5) (N.succ (next s)) (next s5) ENormal) (next s5) X))
+                                   (next s5) (N.succ (next s5)) ECondTrue) (next s5) (next s) ECondFalse) (N.succ (next s5)) X)
+                            (N.succ (next s5)) (next s) ELoop
+               else connect (connect (nb (add_stmt s5 (N.succ (next s)) X)) (N.succ (next s)) (next s5) ENormal) (next s5) (next s) ELoop).
+    assert (E6 : comp_clauses s6 k cl (next s) = comp_clauses s6 k cl (next s)) by reflexivity.
+    match goal with |- CC_out _ _ _ (snd (comp_clauses ?t _ _ _)) _ => replace t with s6 by (unfold s6, s5; destruct (Nat.ltb 0 nifs); reflexivity) end.
+    assert (N5 : next s5 = N.succ (N.succ (next s))) by reflexivity.
+    assert (H6 : mid anyb s s6 /\ klt s6 /\ cur s6 = cur s /\ loops s6 = loops s /\ excs s6 = excs s /\
+                 N.succ (N.succ (N.succ (next s))) <= next s6 /\
+                 (forall u v t, In (u, v, t) (edges s6) -> In (u, v, t) (edges s) \/ ((u = prev \/ next s <= u) /\ next s <= v)) /\
+                 (forall E, incl (edges s6) E -> reach E prev -> (forall b, next s <= b -> b < next s6 -> reach E b)) /\
+                 (forall k' e' b, placed s6 k' e' b -> placed s k' e' b \/ (k' = k /\ e' = k /\ next s <= b)) /\
+                 (forall k' e' b, placed s k' e' b -> placed s6 k' e' b)).
+    { assert (M5 : mid anyb s s5).
+      { apply mid_connect; [apply mid_nb, mid_add_stmt, mid_connect; [apply mid_nb, mid_refl_b; exact Wb|left; exact Logic.I|uflia|uflia]|left; exact Logic.I|uflia|uflia]. }
+      assert (K5 : klt s5) by (apply klt_connect, klt_nb, klt_add_stmt, klt_connect, klt_nb; exact K).
+      unfold s6. destruct (Nat.ltb 0 nifs).
+      - split; [|split; [|split; [reflexivity|split; [reflexivity|split; [reflexivity|split; [rewrite N5; autorewrite with bst; flia|split; [|split; [|split]]]]]]]].
+        + repeat first [apply mid_connect; [|left; exact Logic.I|rewrite ?N5; uflia|rewrite ?N5; uflia] | apply mid_add_stmt | apply mid_nb]. first [exact M5|apply mid_refl_b; exact Wb].
+        + repeat first [apply klt_connect | apply klt_add_stmt | apply klt_nb]. first [exact K5|exact K].
+        + intros u v t Hin. rewrite ?N5 in Hin. unfold s5 in Hin. autorewrite with bst in Hin. rewrite !in_snoc in Hin.
+          destruct Hin as [[[[[[Hin|Hin]|Hin]|Hin]|Hin]|Hin]|Hin]; [left; exact Hin|..]; inversion Hin; subst; right; flia.
+        + intros E HE HR b H1 H2'. rewrite ?N5 in HE, H2'. unfold s5 in HE, H2'. autorewrite with bst in HE, H2'.
+          assert (Hh : reach E (next s)) by (eapply reach_step; [exact HR|apply HE; rewrite !in_snoc; do 5 left; right; reflexivity]).
+          assert (Hb : reach E (N.succ (next s))) by (eapply reach_step; [exact Hh|apply HE; rewrite !in_snoc; do 4 left; right; reflexivity]).
+          assert (Hf : reach E (N.succ (N.succ (next s)))) by (eapply reach_step; [exact Hb|apply HE; rewrite !in_snoc; do 3 left; right; reflexivity]).
+          assert (Ha : reach E (N.succ (N.succ (N.succ (next s))))) by (eapply reach_step; [exact Hf|apply HE; rewrite !in_snoc; do 2 left; right; reflexivity]).
+          assert (b = next s \/ b = N.succ (next s) \/ b = N.succ (N.succ (next s)) \/ b = N.succ (N.succ (N.succ (next s)))) as [->|[->|[->| ->]]] by flia; assumption.
+        + intros k' e' b Hpl. rewrite ?N5 in Hpl. unfold s5 in Hpl. autorewrite with plc in Hpl.
+          apply placed_add_stmt_inv in Hpl. destruct Hpl as [Hpl|(-> & -> & ->)]; [|right; cbn; repeat split; flia].
+          autorewrite with plc in Hpl. apply placed_add_stmt_inv in Hpl. destruct Hpl as [Hpl|(-> & -> & ->)]; [|right; cbn; repeat split; flia].
+          autorewrite with plc in Hpl. apply placed_add_stmt_inv in Hpl. destruct Hpl as [Hpl|(-> & -> & ->)]; [|right; cbn; repeat split; flia].
+          autorewrite with plc in Hpl. left. exact Hpl.
+        + intros k' e' b Hpl. rewrite ?N5. unfold s5. autorewrite with plc. apply placed_add_stmt_mono. autorewrite with plc.
+          apply placed_add_stmt_mono. autorewrite with plc. apply placed_add_stmt_mono. autorewrite with plc. exact Hpl.
+      - split; [|split; [|split; [reflexivity|split; [reflexivity|split; [reflexivity|split; [rewrite N5; autorewrite with bst; flia|split; [|split; [|split]]]]]]]].
+        + repeat first [apply mid_connect; [|left; exact Logic.I|rewrite ?N5; uflia|rewrite ?N5; uflia] | apply mid_add_stmt | apply mid_nb]. first [exact M5|apply mid_refl_b; exact Wb].
+        + repeat first [apply klt_connect | apply klt_add_stmt | apply klt_nb]. first [exact K5|exact K].
+        + intros u v t Hin. rewrite ?N5 in Hin. unfold s5 in Hin. autorewrite with bst in Hin. rewrite !in_snoc in Hin.
+          destruct Hin as [[[[Hin|Hin]|Hin]|Hin]|Hin]; [left; exact Hin|..]; inversion Hin; subst; right; flia.
+        + intros E HE HR b H1 H2'. rewrite ?N5 in HE, H2'. unfold s5 in HE, H2'. autorewrite with bst in HE, H2'.
+          assert (Hh : reach E (next s)) by (eapply reach_step; [exact HR|apply HE; rewrite !in_snoc; do 3 left; right; reflexivity]).
+          assert (Hb : reach E (N.succ (next s))) by (eapply reach_step; [exact Hh|apply HE; rewrite !in_snoc; do 2 left; right; reflexivity]).
+          assert (Ha : reach E (N.succ (N.succ (next s)))) by (eapply reach_step; [exact Hb|apply HE; rewrite !in_snoc; left; right; reflexivity]).
+          assert (b = next s \/ b = N.succ (next s) \/ b = N.succ (N.succ (next s))) as [->|[->| ->]] by flia; assumption.
+        + intros k' e' b Hpl. rewrite ?N5 in Hpl. unfold s5 in Hpl. autorewrite with plc in Hpl.
+          apply placed_add_stmt_inv in Hpl. destruct Hpl as [Hpl|(-> & -> & ->)]; [|right; cbn; repeat split; flia].
+          autorewrite with plc in Hpl. apply placed_add_stmt_inv in Hpl. destruct Hpl as [Hpl|(-> & -> & ->)]; [|right; cbn; repeat split; flia].
+          autorewrite with plc in Hpl. left. exact Hpl.
+        + intros k' e' b Hpl. rewrite ?N5. unfold s5. autorewrite with plc. apply placed_add_stmt_mono. autorewrite with plc.
+          apply placed_add_stmt_mono. autorewrite with plc. exact Hpl. }
+    destruct H6 as (M6 & K6 & C6 & L6 & X6 & N6 & Ed6 & Re6 & Pa6 & Pm6). clearbody s6.
+    pose proof (m_next _ _ _ M6) as Hn6.
+    destruct (IH s6 (next s)) as (M' & K' & C' & L' & X' & La' & Ll' & Ed' & Re' & Pa' & Pm'); [apply (wfb_mid anyb s); assumption|exact K6|flia|].
+    set (r := comp_clauses s6 k cl (next s)) in *.
+    pose proof (m_next _ _ _ M') as Hn'.
+    unfold CC_out. split; [apply (mid_transA _ anyb s s6); [exact M6|exact M'|intros; left; exact Logic.I]|].
+    split; [exact K'|]. split; [congruence|]. split; [congruence|]. split; [congruence|].
+    split; [right; destruct La' as [->|La']; flia|]. split; [exact Ll'|]. split; [|split; [|split]].
+    + intros u v t Hin. destruct (Ed' u v t Hin) as [Hin'|([Hu|Hu] & Hv)]; [apply Ed6; exact Hin'|right; flia|right; flia].
+    + intros E HE HR.
+      assert (HE6 : incl (edges s6) E). { destruct (m_edges _ _ _ M') as (D & ED & _). intros x Hx. apply HE. rewrite ED. apply in_or_app. left. exact Hx. }
+      pose proof (Re6 E HE6 HR) as R6. destruct (Re' E HE (R6 (next s) ltac:(flia) ltac:(flia))) as (R' & Rl).
+      split; [|exact Rl]. intros b H1 H2'. destruct (N.lt_ge_cases b (next s6)) as [Hlt|Hge]; [apply R6; assumption|apply R'; assumption].
+    + intros k' e' b Hpl. destruct (Pa' k' e' b Hpl) as [Hpl'|(-> & -> & Hb)]; [apply Pa6; exact Hpl'|right; repeat split; flia].
+    + intros k' e' b Hpl. apply Pm', Pm6. exact Hpl.
+Qed.
+
+Lemma S_comp k cl : S_stmt (Comp k cl).
+Proof.
+  intros s l inl I _ _. set (L := l (cur s)).
+  cbn [process_stmt' flow_stmt elif_stmt spans_stmt end_stmt]. unfold process_comp. nbs. cbv zeta. autorewrite with bst.
+  pose proof (i_wfb _ I) as Wb. pose proof (i_cur _ I) as Hc. pose proof (wb_two _ Wb) as H2.
+  set (X := mk k k KOther).
+  set (s4 := nb (add_stmt (connect (nb s) (cur s) (next s) ENormal) (next s) X)).
+  assert (M4 : mid anyb s s4).
+  { apply mid_nb, mid_add_stmt, mid_connect; [apply mid_nb, mid_refl_b; exact Wb|left; exact Logic.I|uflia|uflia]. }
+  assert (K4 : klt s4) by (apply klt_nb, klt_add_stmt, klt_connect, klt_nb; exact (i_klt _ I)).
+  assert (N4 : next s4 = N.succ (N.succ (next s))) by reflexivity.
+  destruct (comp_clauses_sim k cl s4 (next s)) as (M5 & K5 & C5 & L5 & X5 & La & Ll & Ed & Re & Pa & Pm);
+    [apply (wfb_mid anyb s); [exact M4|exact Wb|reflexivity|reflexivity]|exact K4|rewrite N4; flia|].
+  destruct (comp_clauses s4 k cl (next s)) as [last s5]. cbn [fst snd] in *. rewrite N4 in *.
+  pose proof (m_next _ _ _ M5) as N5. rewrite N4 in N5.
+  set (src := if N.eqb last (next s) then next s else last).
+  set (ety0 := if N.eqb last (next s) then ENormal else ECondFalse).
+  match goal with |- S_out _ _ _ _ (add_stmt (set_cur ?t _) _ _) _ _ => replace t with (connect s5 src (N.succ (next s)) ety0) by (unfold src, ety0; destruct (N.eqb last (next s)); reflexivity) end.
+  assert (Hsrc : next s <= src /\ src < next s5 /\ (src = next s \/ src = last)).
+  { unfold src. destruct (N.eqb last (next s)) eqn:El; [apply N.eqb_eq in El|apply N.eqb_neq in El]; repeat split; try flia; auto. }
+  destruct Hsrc as (Hs1 & Hs2 & Hs3).
+  set (l' := fun b => if N.ltb b (next s) then l b else L).
+  assert (A : agree (next s) l l') by (intros b Hb; unfold l'; destruct (N.ltb_spec b (next s)); [reflexivity|flia]).
+  assert (Hfr : forall b, next s <= b -> l' b = L) by (intros b Hb; unfold l'; destruct (N.ltb_spec b (next s)); [flia|reflexivity]).
+  exists l'. split; [exact A|].
+  split; [|split; [|split; [|split; [|split; [|split]]]]].
+  - split; autorewrite with bst.
+    + apply mid_add_stmt, mid_set_cur, mid_connect; [|left; exact Logic.I|exact Hs2|flia].
+      apply (mid_transA _ anyb s s4); [exact M4|exact M5|intros; left; exact Logic.I].
+    + rewrite L5. reflexivity.
+    + rewrite X5. reflexivity.
+    + right. flia.
+    + flia.
+    + apply klt_add_stmt, klt_set_cur, klt_connect. exact K5.
+  - autorewrite with bst. apply Hfr. flia.
+  - intros Hctx Hb Cl. autorewrite with bst. rewrite closed_snoc. split.
+    + intros u v t Hin Hu. destruct (Ed u v t Hin) as [Hin'|(Hu' & Hv)].
+      * unfold s4 in Hin'. autorewrite with bst in Hin'. apply in_snoc in Hin'. destruct Hin' as [Hin'|Hin'].
+        -- destruct (wb_bnd _ Wb u v t Hin') as (Q1 & Q2). rewrite (A u Q1) in Hu. rewrite (A v Q2). eapply Cl; eauto.
+        -- inversion Hin'; subst. rewrite (A _ Hc) in Hu. rewrite Hfr by flia. exact Hu.
+      * rewrite (Hfr v) by flia. rewrite (Hfr u) in Hu by (destruct Hu' as [->|Hu']; flia). exact Hu.
+    + rewrite !Hfr by flia. exact (fun H => H).
+  - intros E HE HR. autorewrite with bst in HE. cbn [rn rk]. autorewrite with bst.
+    assert (HE5 : incl (edges s5) E) by (intros x Hx; apply HE; apply in_or_app; left; exact Hx).
+    split; [|split; [discriminate|intros HL Hn; rewrite HL in Hn; discriminate]].
+    intros b Hb1 Hb2 Hb3. rewrite (Hfr b Hb1) in Hb3.
+    assert (Hini : reach E (next s)).
+    { eapply reach_step; [apply HR; exact Hb3|]. apply HE5. destruct (m_edges _ _ _ M5) as (D & ED & _). rewrite ED.
+      apply in_or_app. left. unfold s4. autorewrite with bst. apply in_or_app. right. left. reflexivity. }
+    destruct (Re E HE5 Hini) as (R & Rl).
+    destruct (N.eq_dec b (next s)) as [->|Hn1]; [exact Hini|].
+    destruct (N.eq_dec b (N.succ (next s))) as [->|Hn2].
+    + eapply reach_step; [|apply HE; apply in_or_app; right; left; reflexivity].
+      destruct Hs3 as [->| ->]; [exact Hini|exact Rl].
+    + apply R; flia.
+  - intros k' e' b Hp. apply placed_add_stmt_inv in Hp. destruct Hp as [Hp|(-> & -> & ->)].
+    + autorewrite with plc in Hp. destruct (Pa k' e' b Hp) as [Hp'|(-> & -> & Hb)].
+      * unfold s4 in Hp'. autorewrite with plc in Hp'. apply placed_add_stmt_inv in Hp'. destruct Hp' as [Hp'|(-> & -> & ->)].
+        -- left. autorewrite with plc in Hp'. exact Hp'.
+        -- right. right. cbn. rewrite Hfr by flia. split; left; reflexivity.
+      * right. right. cbn. rewrite Hfr by flia. split; left; reflexivity.
+    + right. right. cbn. rewrite Hfr by flia. split; left; reflexivity.
+  - intros k' m [Heq|[]]. inversion Heq; subst. right. exists k', (N.succ (next s)). split; [|apply Hfr; flia].
+    apply (placed_add_stmt_new (set_cur (connect s5 src (N.succ (next s)) ety0) (N.succ (next s))) (N.succ (next s)) X).
+    unfold haskey. autorewrite with bst. apply (m_keys _ _ _ M5). flia.
+  - intros k' e' b Hp. apply placed_add_stmt_mono. autorewrite with plc. apply Pm. unfold s4. autorewrite with plc.
+    apply placed_add_stmt_mono. autorewrite with plc. exact Hp.
+Qed.
